@@ -1,4 +1,4 @@
-CONSTANTS P = 12289 GEN = 1331 LOGN = 12 MaxLog = 7 Basis = "some"
+CONSTANTS P = 12289 GEN = 1331 LOGN = 12 MaxLog = 6 Basis = "some"
 INIT Init
 NEXT Next
 INVARIANT DefsSane
